@@ -20,6 +20,10 @@ def cmp_facts(facts):
     for f in facts:
         if f[0] == 'b' and f[1][0] == 'op' and f[1][1] in CMP:
             yield f[1][1], f[1][3], f[1][4], f[2]
+            # and the same comparison read from the other side (a < b  ==  b > a), so that no rule
+            # depends on the order in which the source wrote the operands
+            if f[1][3] != f[1][4]:
+                yield SWAP[f[1][1]], f[1][4], f[1][3], f[2]
 
 
 def float_interval(facts, term):
@@ -176,4 +180,15 @@ def derives(engine, x, src, depth=6):
         i = x[1][2]
         if ev is not None and isinstance(i, int) and ev.argvals and i < len(ev.argvals) and ev.argvals[i] is not None:
             return derives(engine, ev.argvals[i], src, depth - 1)
+    return False
+
+
+def is_cmp(t, op, a_pred, b_pred):
+    """t is the comparison `a op b`, in either operand order (a < b  ==  b > a); a_pred / b_pred
+    are terms or predicates on terms"""
+    if t[0] != 'op' or t[1] not in CMP: return False
+    pa = a_pred if callable(a_pred) else (lambda x: x == a_pred)
+    pb = b_pred if callable(b_pred) else (lambda x: x == b_pred)
+    if t[1] == op and pa(t[3]) and pb(t[4]): return True
+    if t[1] == SWAP[op] and pa(t[4]) and pb(t[3]): return True
     return False
